@@ -351,6 +351,10 @@ extern "C" void harness_run()
       uint64_t slack = wheel ? d + 6 * w.tick_ns : 50000000ull;
       until = std::max(until, r->t_ret + d + slack);
     }
+    // handlers run one after the other on the service's own thread: a burst of slow handlers holds every later timer back
+    uint64_t handlerTime = 0;
+    for (auto& r : w.timers) handlerTime += (uint64_t)r->handler_us * 1000ull * (r->periodic ? 4 : 1);
+    until += handlerTime;
     if (until > sim::now()) sim::sleep_ns(until - sim::now() + (wheel ? 4 * w.tick_ns : 20000000ull));
     quietFrom = sim::now();
     terminate_all(termMode == 2);
@@ -384,13 +388,13 @@ extern "C" void harness_run()
     fired += r.fires.size();
     std::sort(r.fires.begin(), r.fires.end(), [](const Fire& a, const Fire& b) { return a.st_entry < b.st_entry; });
     // effective schedule segments: original, then each successful reschedule
-    struct Seg { uint64_t from_st; uint64_t deadline; };
-    std::vector<Seg> segs{{r.sched.inv, r.t_inv + r.delay_ns}};
+    struct Seg { uint64_t from_st; uint64_t deadline; uint64_t ret_st; };
+    std::vector<Seg> segs{{r.sched.inv, r.t_inv + r.delay_ns, r.sched.ret}};
     uint64_t cancel_ok_ret = 0;
     bool cancelFailedWhileRunning = false;
     for (auto& c : r.cancels)
     {
-      if (c.resched && c.ok) segs.push_back({c.sp.inv, c.t_inv + c.new_delay_ns});
+      if (c.resched && c.ok) segs.push_back({c.sp.inv, c.t_inv + c.new_delay_ns, c.sp.ret});
       if (!c.resched && c.ok) { cancel_ok_ret = cancel_ok_ret ? std::min(cancel_ok_ret, c.sp.ret) : c.sp.ret; cancelledOk++; }
       if (!c.resched && !c.ok && (w.term_inv_st == 0 || c.sp.ret < w.term_inv_st) && c.sp.inv > r.sched.ret) cancelFailedWhileRunning = true;
     }
@@ -405,9 +409,10 @@ extern "C" void harness_run()
       for (size_t s = 0; s < segs.size(); s++)
       {
         bool superseded = false;
-        // segment s is superseded if a later successful reschedule RETURNED before this firing entered
+        // segment s is superseded if a successful reschedule that was invoked AFTER s had returned (two overlapping reschedules
+        // may take effect in either order) itself RETURNED before this firing entered
         for (auto& c : r.cancels)
-          if (c.resched && c.ok && c.sp.inv > segs[s].from_st && c.sp.ret < f.st_entry) superseded = true;
+          if (c.resched && c.ok && c.sp.inv > segs[s].ret_st && c.sp.ret < f.st_entry) superseded = true;
         if (segs[s].from_st < f.st_entry && !superseded) need = std::min(need, segs[s].deadline);
       }
       if (need == UINT64_MAX) need = segs[0].deadline;
@@ -423,7 +428,7 @@ extern "C" void harness_run()
         {
           // a later successful reschedule may have shortened it again; only flag when no other admissible deadline explains it
           bool explained = false;
-          for (auto& c2 : r.cancels) if (c2.resched && c2.ok && c2.sp.inv > c.sp.inv && c2.sp.inv < f.st_entry && f.t_entry + tol >= c2.t_inv + c2.new_delay_ns) explained = true;
+          for (auto& c2 : r.cancels) if (&c2 != &c && c2.resched && c2.ok && !(c2.sp.ret < c.sp.inv) /* not provably before c: overlapping calls take effect in either order */ && c2.sp.inv < f.st_entry && f.t_entry + tol >= c2.t_inv + c2.new_delay_ns) explained = true;
           if (!explained) sim::fail("timer-fired-after-reschedule", "timer %d: old schedule fired after reschedule() returned true", r.idx);
         }
       if (w.drain_ret_st[r.svc & 3] && f.st_entry > w.drain_ret_st[r.svc & 3])
